@@ -1,12 +1,13 @@
 SPECIFICATION Spec
 CONSTANTS
   Mode = "single"
-  NMax = 2
-  Hi = 3
-  NSmall = 2
+  NMax = 4
+  Hi = 5
+  NSmall = 4
   Stride = 1
-  CheckDef = TRUE
+  CheckDef = FALSE
 INVARIANT ThDef
+INVARIANT ThSort
 INVARIANT ThShape
 INVARIANT ThArea
 INVARIANT ThGrid
